@@ -35,6 +35,7 @@ type c10Kube struct {
 	AllowFailure            *bool
 	Includes                []string
 	Queue, Group            string
+	ExplicitEmpty           bool // write name / queue / group as "" instead of leaving them out
 }
 
 type c10Sched struct {
@@ -64,8 +65,9 @@ type c10Conv struct {
 }
 
 type c10Settings struct {
-	Interval string
-	Burst    int
+	Interval            string
+	Burst               int
+	NoInterval, NoBurst bool // the key is absent: the typed field is "" and does not parse
 }
 
 type c10Doc struct {
@@ -129,6 +131,9 @@ func c10Strs(xs []string) []any {
 
 func (k c10Kube) toMap() c10Omap {
 	m := c10Omap{"kind": k.Kind}
+	if k.ExplicitEmpty {
+		m["name"], m["queue"], m["group"] = "", "", ""
+	}
 	if k.Name != "" {
 		m["name"] = k.Name
 	}
@@ -325,7 +330,14 @@ func (d c10Doc) toMap() c10Omap {
 	}
 	m["configVersion"] = "v1"
 	if d.Settings != nil {
-		m["settings"] = c10Omap{"executionMinInterval": d.Settings.Interval, "executionBurst": d.Settings.Burst}
+		sm := c10Omap{}
+		if !d.Settings.NoInterval {
+			sm["executionMinInterval"] = d.Settings.Interval
+		}
+		if !d.Settings.NoBurst {
+			sm["executionBurst"] = d.Settings.Burst
+		}
+		m["settings"] = sm
 	}
 	if d.OnStartup != nil {
 		m["onStartup"] = *d.OnStartup
@@ -578,10 +590,10 @@ func (d c10Doc) declLines(policy string) []string {
 	out = append(out, "doc v1", "policy "+policy)
 	if d.Settings != nil {
 		iv, bu := "err", "err"
-		if dur, err := time.ParseDuration(d.Settings.Interval); err == nil {
+		if dur, err := time.ParseDuration(d.Settings.Interval); err == nil && !d.Settings.NoInterval {
 			iv = fmt.Sprint(int64(dur))
 		}
-		if b, err := strconv.ParseInt(strconv.Itoa(d.Settings.Burst), 10, 32); err == nil {
+		if b, err := strconv.ParseInt(strconv.Itoa(d.Settings.Burst), 10, 32); err == nil && !d.Settings.NoBurst {
 			bu = fmt.Sprint(b)
 		}
 		out = append(out, fmt.Sprintf("settings %s %s", iv, bu))
